@@ -254,6 +254,15 @@ Theorem c15_utf8_lossless :
 Proof. exact lossy_encode. Qed.
 Print Assumptions c15_utf8_lossless.
 
+(* ... so for a body that is valid UTF-8 (the encoding of a text of scalar values) the byte layer is the identity: the
+   frames of any chunking — also one that cuts inside characters — are those of the text's events *)
+Theorem c15_valid_utf8_body :
+  forall (classify : option str -> str -> cls) (off : N) (text : list N) (cs : list (list N)),
+  forallb is_scalar text = true -> concat cs = encode text ->
+  frames_of classify FIXED off cs = frames_from off (upto_done (events_spec classify text)).
+Proof. exact valid_utf8_body. Qed.
+Print Assumptions c15_valid_utf8_body.
+
 (* S11, first half: before the repair an invalid sequence at buffer position 0 lost one byte where
    elsewhere it lost error_len bytes, so the number of U+FFFD depended on the chunk boundary *)
 Theorem c15_ffd_at_buffer_start_refuted :
